@@ -426,8 +426,15 @@ def translate_type(name, text, schemas, label, pre):
     c = guarded(common)
     if isinstance(c, Untied): return {'parse': c, 'write': c, 'comp': c}
     struct, impl = c
+    gnums = []
     def parse():
         pf, tail = parse_body(w + "parse", block_after(impl, r'\bfn parse\b', w + "parse"))
+        # the up-front length guards `*position + N > data.len()` (either way round), in textual order
+        del gnums[:]
+        for g in tail:
+            if 'position' in g and 'data.len()' in g:
+                m = re.match(r'(?:\*position\+(\d+)>data\.len\(\)|data\.len\(\)<\*position\+(\d+))$', g)
+                gnums.append(int(m.group(1) or m.group(2)) if m else None)
         return bind(w + "parse", pf, tail, struct)
     def write():
         return write_body(w + "write_to", text, block_after(impl, r'\bfn write_to\b', w + "write_to"), struct, False, schemas)
@@ -454,7 +461,11 @@ def translate_type(name, text, schemas, label, pre):
                 out.append((('name', cflag.get(f, False)), f))
             else: out.append((fk, f))
         return out
-    return {k: flagged(v) for k, v in raw.items()}
+    out = {k: flagged(v) for k, v in raw.items()}
+    spliced = not isinstance(raw['parse'], Untied) and any(fk[0] == 'splice' for fk, _ in raw['parse'])
+    out['guards'] = None if spliced else (Untied(f"{w}parse: {raw['parse'].reason}") if isinstance(raw['parse'], Untied) else
+                     Untied(f"{w}parse: a length guard is not of the form `*position + N > data.len()`") if None in gnums else list(gnums))
+    return out
 
 # ---------------------------------------------------------------- constants and enums
 
@@ -581,6 +592,11 @@ def generate(repo):
         for key, prefix in (('parse', 'parse'), ('write', 'write'), ('comp', 'compressed')):
             if isinstance(record(f"{prefix}:{v}", schemas[v][key]), Untied) and v in code:
                 untied_codes[key].append(code[v])
+    guard_rows = []
+    for v in flat:
+        gv = schemas[v].get('guards') if isinstance(schemas[v], dict) else None
+        if gv is None or isinstance(schemas[v]['parse'], Untied): continue      # no own body; or untied together with parse:<T>
+        if not isinstance(record(f"guards:{v}", gv), Untied) and v in code: guard_rows.append(f"({code[v]}, [{', '.join(str(x) for x in gv)}])")
     table = lambda key, what: lean_list([f"({code[v]}, [{', '.join(what(e) for e in schemas[v][key])}])" for v in flat
                                          if schemas[v][key] is not None and not isinstance(schemas[v][key], Untied)])
     kinds, names = (lambda e: lean_kind(e[0])), (lambda e: f'"{e[1]}"')
@@ -660,6 +676,8 @@ def generate(repo):
          f"def writeSchema : List (Nat × List FKind) := {table('write', kinds)}", "",
          "/-- wire writes of `fn write_compressed_to`, for the types that override it -/",
          f"def compressedSchema : List (Nat × List FKind) := {table('comp', kinds)}", "",
+         "/-- the up-front length guards `*position + N > data.len()` of each `fn parse`, in order (absent row: untied) -/",
+         f"def parseGuards : List (Nat × List Nat) := {lean_list(guard_rows)}", "",
          "/-- the struct field each value read by `fn parse` is stored in -/",
          f"def parseFields : List (Nat × List String) := {table('parse', names)}", "",
          "/-- the struct field each value written by `fn write_to` comes from -/",
